@@ -14,6 +14,7 @@
  *   dated   [N]      N lines "2012-03-01 x": 16383 16384 16385 32769
  *   llen    [L]      5 short lines around one line of L bytes: 1023 1024 1025 4095 4096 4097 65537
  *   total   [bytes]  lines of 2047 x + \n up to a total of 16 MiB-1, 16 MiB, 16 MiB+1
+ *   exact   [bytes]  lines of 2048 bytes, the unterminated last one ends exactly at 16 MiB-4096 / 16 MiB
  *   fat     [bytes]  17000 lines of 1100 bytes (first 16384 lines exceed the window)
  *   long    [bytes]  one line of 16 MiB + 4097 bytes
  * Class key: family, tool, final newline, kind of failure (the piece size goes
@@ -21,8 +22,8 @@
 #include "explore.h"
 #include "c18_feed.h"
 
-enum { F_LINES, F_DATED, F_LLEN, F_TOTAL, F_FAT, F_LONG, NFAM };
-static const char *const fam_name[NFAM] = {"lines", "dated", "llen", "total", "fat", "long"};
+enum { F_LINES, F_DATED, F_LLEN, F_TOTAL, F_EXACT, F_FAT, F_LONG, NFAM };
+static const char *const fam_name[NFAM] = {"lines", "dated", "llen", "total", "exact", "fat", "long"};
 #define MIB16	(16L * 1024L * 1024L)
 
 struct tool_s {
@@ -106,6 +107,18 @@ mk_input(struct buf *b, int fam, long par, int nl, char *pl, size_t plsz)
 				memcpy(q, tmp, strlen(tmp));
 			}
 		}
+		break;
+	}
+	case F_EXACT: {
+		/* lines of 2048 bytes, the last one without its newline ends exactly at PAR bytes */
+		long n = par / 2048 - 1;
+		for (long i = 0; i < n; i++) {
+			b_fill(b, 'x', 2047);
+			b_put(b, "\n", 1);
+		}
+		b_fill(b, 'x', 2048);
+		b_put(b, "\n", 1);
+		snprintf(pl, plsz, "(\"x\"x2047 . \"\\n\")x%ld, \"x\"x2048, \"\\n\"", n);
 		break;
 	}
 	case F_FAT:
@@ -246,6 +259,7 @@ main(int argc, char *argv[])
 		{F_DATED, 16383}, {F_DATED, 16384}, {F_DATED, 16385}, {F_DATED, 32769},
 		{F_LLEN, 1023}, {F_LLEN, 1024}, {F_LLEN, 1025}, {F_LLEN, 4095}, {F_LLEN, 4096}, {F_LLEN, 4097}, {F_LLEN, 65537},
 		{F_TOTAL, MIB16 - 1}, {F_TOTAL, MIB16}, {F_TOTAL, MIB16 + 1},
+		{F_EXACT, MIB16 - 4096}, {F_EXACT, MIB16},
 		{F_FAT, 18700000},
 		{F_LONG, MIB16 + 4097},
 	};
@@ -269,7 +283,7 @@ main(int argc, char *argv[])
 	}
 	ex_meta("rule", "stock binaries of the same build (dconv -S, dadd -S +1d, dround -S Mon), stdin through a pipe in one piece and in pieces of 4096/4095/4097/1 "
 		"bytes (a piece boundary is a read() boundary; the writer waits for the pipe to drain), inputs on the seams of the stock constants: N lines around "
-		"16384 and 32768 (plain and with a date per line), one line of L bytes around 1024/4096/65536, totals around 16 MiB, 17000 lines of 1100 bytes, one "
+		"16384 and 32768 (plain and with a date per line), one line of L bytes around 1024/4096/65536, totals around 16 MiB, an unterminated last line ending exactly at 16 MiB, 17000 lines of 1100 bytes, one "
 		"line longer than the window; each with and without the final newline; oracle: output = input (a missing final newline may be supplied), dated lines: "
 		"the date replaced by the tool's result. states/transitions = pieces delivered; traces = runs compared; non-trivial = runs with piece sizes other than "
 		"whole/4096. Pieces of 1 byte only for inputs below 70 kB; big inputs (>= 16 MiB) through dadd/dround only in one piece (thorough).");
